@@ -166,14 +166,17 @@ def isComparison (o : Op) : Bool :=
   | .LessThan | .LessEqual | .GreaterThan | .GreaterEqual | .Equality | .Inequality => true
   | _ => false
 
+/-- an operator applied to operand values that are not enums -/
+def opValue (o : Op) (vals : List Constant) : Option Constant :=
+  match vals with
+  | [a] => unop o a
+  | [a, b] => binop o a b
+  | _ => none
+
 /-- an operator applied to evaluated operands.  (Operand lists mixing different enum types do not occur in
     typed programs; the enum of the last enum operand is used.) -/
 def applyOp (o : Op) (vals : List Constant) : Option Constant :=
-  let r := match vals.map strip with
-    | [a] => unop o a
-    | [a, b] => binop o a b
-    | _ => none
-  match r, (vals.filterMap enumId?).getLast? with
+  match opValue o (vals.map strip), (vals.filterMap enumId?).getLast? with
   | some r, some id => if isComparison o then some r else some (.enum id r)
   | r, _ => r
 
